@@ -3,9 +3,10 @@ import Mathlib.Algebra.Order.Floor.Ring
 import Mathlib.Data.Rat.Floor
 /-! # C03 — timestamps convert to and from epoch seconds without drifting or deforming
 
-Property theorems only (helper lemmas are in `Lemmas/ObsTime.lean`). The model
-(`Model/ObsTime.lean`) is in integer milliseconds; all statements are for every instant /
-every well-formed stamp, with no bound on the year. -/
+Property theorems only (helper lemmas are in `Lemmas/ObsTime.lean`, `Lemmas/ObsTimeG.lean`). T1–T6 are about the
+integer model (`Model/ObsTime.lean`, integer milliseconds); T7–T14 are about the scalar-polymorphic model of the
+float path (`Model/ObsTimeG.lean`) over a linearly ordered field with an exact `int()`, and reduce it to the
+integer model. All statements are for every instant / every well-formed stamp, with no bound on the year. -/
 namespace TV.C03
 open TV.ObsTime
 
